@@ -242,10 +242,11 @@ class ReplaceStringTransformation(StringValueTransformation):
                 sigma_string_plain = str(val)
                 replaced = self.re.sub(self.replacement, sigma_string_plain)
                 postprocessed_backslashes = re.sub(r"\\(?![*?])", r"\\\\", replaced)
+                # Keep the class of the value: a case-sensitive string stays case-sensitive.
                 if val.contains_placeholder():  # Preserve placeholders
-                    return SigmaString(postprocessed_backslashes).insert_placeholders()
+                    return val.__class__(postprocessed_backslashes).insert_placeholders()
                 else:
-                    return SigmaString(postprocessed_backslashes)
+                    return val.__class__(postprocessed_backslashes)
 
 
 @dataclass
